@@ -312,6 +312,10 @@ def run_case(kind, p):
                     kw_["crop_bufs"] = np.zeros((nb_ + 1, 2 * c + 3, 2 * c + 5), dtype=np.float32)[:nb_, 1:2 * c + 1, 2:2 * c + 2]
                 else:
                     kw_["crop_bufs"] = np.zeros((2 * c, nb_, 2 * c), dtype=np.float32).transpose(1, 0, 2)
+            if p.get("prefill") is not None:
+                # output arrays that still hold the results of an earlier frame (the documented way of using them in a loop):
+                # every entry is written
+                kw_["outs"] = impl.alloc_out(len(peaks), prefill=float(p["prefill"]))
             outs = runner(frame, pattern, peaks, b=p["b"], **kw_)
         except Exception as e:
             msgs.append(f"{pipeline}: raised {type(e).__name__}: {e}")
@@ -333,7 +337,7 @@ def gen_case(rng, k):
     peaks = np.stack([rng.integers(-2 * c, shape[0] + 2 * c, n), rng.integers(-2 * c, shape[1] + 2 * c, n)], axis=1)
     peaks[0] = (int(rng.integers(c, shape[0] - c + 1)), int(rng.integers(c, shape[1] - c + 1)))
     return {"seed": int(rng.integers(1 << 30)), "pattern": pat, "shape": shape,
-            "frame_kind": ("poisson", "gauss", "disks", "hot")[k % 4], "peaks": peaks.tolist(),
+            "frame_kind": ("poisson", "gauss", "disks", "hot")[k % 4], "prefill": [None, 1234.5, -77.25][(k // 4) % 3], "peaks": peaks.tolist(),
             "b": int(rng.integers(1, n + 2)), "pipelines": ["fast", "full"],
             "buf_layout": [None, "window", None, "transposed"][(k // 3) % 4], "negate": (k // 2) % 3 == 1 or k % 10 == 7,
             "pedestal": (0.0, 0.0, 2.0 ** 24 + 2, 0.0, -3e9, 2.0 ** 25, 1e6, float(2 ** int(rng.integers(24, 31))))[(k // 4) % 8]
